@@ -87,6 +87,7 @@ def sweep_main():
         except Exception:
             continue
         out["cases"] += 1
+        out["calls"] = out.get("calls", 0) + int(r.get("calls", 0) or 0)
         if len(out["samples"]) < 3:
             out["samples"].append({k: repr(v)[:200] for k, v in model.items()})
         if "verdict" in r:
